@@ -26,6 +26,7 @@ var sp = func(c, s uint64) spice.Melange { return spice.Melange{Currency: c, Sup
 type c08TipT struct {
 	hash   [32]byte
 	weight uint64
+	dup    accountant.Vertex // one vertex sealed by M on that tip, for deliveries of the SAME vertex by several clients
 }
 
 // c08Tip records, per world, a tip of node 0 at the end of the set-up phase.
@@ -40,7 +41,8 @@ func c08World(shape string, nodes ...string) *world.LW {
 	l := snap.Leaves[0]
 	for _, v := range snap.Vertices {
 		if v.Hash == l {
-			c08Tip[w] = c08TipT{l, v.Weight}
+			c08Tip[w] = c08TipT{hash: l, weight: v.Weight,
+				dup: w.Craft(world.Cast("M"), w.Tx("op-dup", world.Cast("R"), world.Cast("A"), 1, 0), l, l, v.Weight+1)}
 		}
 	}
 	return w
@@ -115,6 +117,11 @@ func c08Op(w *world.LW, op string, ctx context.Context) string {
 		v := w.Craft(M, w.Tx("op-add", R, A, 1, 0), l, l, wt+1)
 		err := w.Deliver(ctx, 0, v)
 		return "add=" + world.ErrClass(err)
+	case "add-dup":
+		// the same vertex as every other add-dup client delivers (two peers relaying one vertex)
+		v := c08Tip[w].dup
+		err := w.Deliver(ctx, 0, v)
+		return "add-dup=" + world.ErrClass(err)
 	case "truncate":
 		err := b.VerifTruncate(ctx)
 		return "truncate=" + world.ErrClass(err)
@@ -363,6 +370,8 @@ func c08Scenarios() map[string]*sched.Scenario {
 	add("S8/history+create/chain4", []int{-1}, c08Multi("chain4", []string{"history", "create"}))
 	add("S8/history+add/diamond", []int{-1}, c08Multi("diamond", []string{"history", "add"}))
 	add("S8/balance+create+add/chain4", []int{-1}, c08Multi("chain4", []string{"balance", "create", "add"}))
+	add("S9/same-vertex-delivered-twice/chain4", []int{-1}, c08Multi("chain4", []string{"add-dup", "add-dup"}))
+	add("S9/same-vertex-delivered-twice+create/diamond", []int{-1}, c08Multi("diamond", []string{"add-dup", "add-dup", "create"}))
 	add("S6/stream-abandoned/chain6", []int{-1}, c08Single("stream-abandon", "chain6"))
 	add("S6/stream-abandoned+create/chain6", []int{-1}, c08Multi("chain6", []string{"stream-abandon", "create"}))
 	return m
